@@ -296,8 +296,13 @@ func (store ItemVarStore) GetDelta(index VariationStoreIndex, coords []Coord) fl
 	}
 	deltaSet := varData.DeltaSets[index.DeltaSetInner]
 	var delta float32
+	regions := store.VariationRegionList.VariationRegions
 	for i, regionIndex := range varData.RegionIndexes {
-		region := store.VariationRegionList.VariationRegions[regionIndex]
+		if int(regionIndex) >= len(regions) {
+			// the region indexes are not validated when parsing: an invalid region contributes nothing
+			continue
+		}
+		region := regions[regionIndex]
 		v := region.Evaluate(coords)
 		delta += float32(deltaSet[i]) * v
 	}
